@@ -1007,6 +1007,218 @@ def evaluate(ctx, V, impl, model, cases, record=True):
     return nviol, ndis
 
 
+# ---------------------------------------------------------------------------------------------- R-HLO
+# The host-list ORACLES of the client layer (C02 C03 C06 C11 C15), as Proofs/HLOracles.v defines them from the model
+# (hl_expand_str, hl_ranged_sorted[_expr], hl_ranged_plain, hl_sorted; theorems C14_services_*, C15_stream_hl), against the
+# implementations driver/devstub.c hands the extracted client / device models (the scratch copy's real hostlist.c), on the same
+# arguments; monitor = C14_services_provenance evaluated on the IMPLEMENTATION's answer by an independent python reading
+# (every byte of an answer occurs in the argument or is a digit / one of [ ] , -), plus ref_expand for expressions.
+HLO_ODD = [b"a\rb", b"\rn1", b"n1\r", b"n\x80\xff1", b"x+1", b"x-1", b"-", b"--5", b"+7", b"n 1", b"a\tb", b"007", b"\x01", b"\x01\x01", b"q"]
+HLO_SYNTAX = [b"t1a[2]", b"n[1-3]", b"n[3,1]", b"x,y", b"a b", b"t[01-03]z", b"t[5-1]", b"t[1", b"t1]", b"u[2]v[3]", b"[1]", b",", b"t[9-10]", b"t[09-10]"]
+
+
+def hlo_build(ctx):
+    return ctx.ocaml_driver("hlo_model", "hlomodel", "hlo_drv.ml", cstubs=["devstub.c"], csources=[ctx.repo + "/src/liblsd/hostlist.c"],
+                            ccopt="-w -DHAVE_CONFIG_H -I%s/config -I%s/src/liblsd" % (ctx.repo, ctx.repo))
+
+
+def hlo_ok_bytes(b):
+    return b != b"" and 0 not in b and 10 not in b
+
+
+def hlo_names(rng, syntax=False, odd=True):
+    out = []
+    for _ in range(rng.choice([0, 1, 1, 2, 3, 4, 6, 9])):
+        r = rng.random()
+        if r < 0.25:
+            out += gen_run(rng)
+        elif r < 0.33 and odd:
+            out.append(rng.choice(HLO_ODD))
+        elif r < 0.45 and syntax:
+            out.append(rng.choice(HLO_SYNTAX))
+        else:
+            out.append(gen_name(rng))
+    rng.shuffle(out)
+    if rng.random() < 0.3 and out:
+        out.append(rng.choice(out))          # a repeated name
+    return [n for n in out if hlo_ok_bytes(n)]
+
+
+def hlo_generate(rng, n):
+    cases = [("E", b"n[1-3],x"), ("RS", [b"n3", b"n1", b"n2", b"x"]), ("RX", [b"t1a[2]"]), ("RS", [b"t1a[2]".replace(b"[", b"(").replace(b"]", b")")]),
+             ("E", b"t[1]a[2]"), ("E", b"a\rb[1-2]\r"), ("RP", [b"n3", b"n1", b"n2", b"x"]), ("SO", [b"n3", b"n1", b"n2", b"x", b"n001", b"n01"]),
+             ("SO", [b"t000000000000000000001", b"t2"]), ("RX", [b"a b", b"x,y", b"n[3,1]"]), ("E", b"\x01"), ("E", b"\x01,\x01"), ("RX", []), ("SO", [])]
+    for i in range(n):
+        r = rng.random()
+        if r < 0.35:
+            k = rng.random()
+            e = gen_expr(rng) if k < 0.6 else gen_malformed(rng) if k < 0.85 else b",".join(hlo_names(rng, True)) or b"x"
+            if rng.random() < 0.1:
+                e = e + rng.choice([b"\r", b",\r", b"\rz"])
+            if not hlo_ok_bytes(e) or len(e) > 2000 or e in HANG_EXPR:
+                e = b"t[1-2]"
+            cases.append(("E", e))
+        elif r < 0.50:
+            cases.append(("RS", hlo_names(rng, False, False)))       # names free of list syntax: hostlist_push = hostlist_push_host
+        elif r < 0.70:
+            cases.append(("RX", hlo_names(rng, True)))
+        elif r < 0.85:
+            cases.append(("RP", hlo_names(rng, True)))
+        else:
+            cases.append(("SO", hlo_names(rng, True)))
+    return cases
+
+
+def hlo_enc(cid, op, arg):
+    if op == "E":
+        return "E %s %s\n" % (cid, hx(arg))
+    return "%s %s %s\n" % (op, cid, ",".join(hx(x) for x in arg) if arg else ".")
+
+
+def hlo_canon(op, arg):
+    return "HLO " + hlo_enc("x", op, arg).strip()
+
+
+def hlo_parse_case(line):
+    w = line.split()
+    if w[1] == "E":
+        return ("E", unhx(w[3]))
+    return (w[1], [] if w[3] == "." else [unhx(x) for x in w[3].split(",")])
+
+
+def hlo_res(op, txt):
+    if op in ("E", "SO"):
+        if txt == "null":
+            return None
+        return [] if txt == "." else [unhx(x) for x in txt.split(",")]
+    return unhx(txt)
+
+
+def hlo_run(exe, cases, timeout=300):
+    text = "".join(hlo_enc("h%d" % i, op, arg) for i, (op, arg) in enumerate(cases))
+    rc, o, e = vlib.sh(["timeout", "-s", "KILL", str(timeout), exe], inp=text.encode("latin-1"), shell=False, timeout=timeout + 10)
+    out = {}
+    for l in o.split("\n"):
+        w = l.split()
+        if len(w) == 5 and w[1] == "M" and w[3] == "I":
+            out[w[0]] = (w[2], w[4])
+    return out
+
+
+def hlo_monitor(op, arg, ans):
+    """the property on the implementation's answer.  returns None or (clause, detail)"""
+    src = set(arg) if op == "E" else set(b"".join(arg))
+    digits = set(b"0123456789")
+    if op in ("E", "SO"):
+        if ans is None:
+            if op == "E" and isinstance(ref_expand(arg), list) and not any(c in arg for c in b"+") and b"\x01" not in arg:
+                return ("expand_str", "hostlist_create refuses an expression the documented notation defines: %r" % arg)
+            return None
+        for n in ans:
+            bad = [c for c in n if c not in src and c not in digits]
+            if bad:
+                return ("services_provenance", "name %r holds byte(s) %r that occur neither in the argument nor among the digits" % (n, bytes(bad)))
+        if op == "E":
+            ref = ref_expand(arg)
+            if ref == "error":
+                return ("expand_str", "hostlist_create accepts an expression the documented notation refuses: %r -> %r" % (arg, ans[:6]))
+            if isinstance(ref, list) and not re.search(rb"[0-9]{15}", arg) and ans != ref and b"\x01" not in arg:
+                return ("expand_str", "expression %r expands to %s, documented notation says %s" % (arg, brief(ans), brief(ref)))
+        if op == "SO" and all(b"[" not in n and b"]" not in n for n in arg):
+            trunc = any(len(n) - len(n.rstrip(b"0123456789")) > 14 for n in arg)      # hostlist_next cuts a printed number at 14 characters
+            if not trunc and sorted(ans) != sorted(arg):
+                return ("sorted_permutation", "sorting %s yields %s: not the same names" % (brief(arg), brief(ans)))
+        return None
+    bad = [c for c in ans if c not in src and c not in digits and c not in b"[],-"]
+    if bad:
+        return ("services_provenance", "ranged string %r holds byte(s) %r that occur neither in a name nor among digits and [ ] , -" % (ans, bytes(bad)))
+    if all(c not in (10, 13) for c in src) and any(c in (10, 13) for c in ans):
+        return ("services_clean", "ranged string %r of clean names holds a CR / LF" % ans)
+    legal = all(n and not any(c in n for c in b"[], \t") and len(n) < 1023 for n in arg)
+    if legal and len(arg) <= 10240:
+        back = ref_expand(ans) if ans else []
+        if isinstance(back, list) and all(len(n) < 60 for n in arg):
+            want = sorted(arg) if op in ("RS", "RX") else list(arg)
+            got = sorted(back) if op in ("RS", "RX") else back
+            if got != want:
+                return ("reply_sets", "the text %r of the node set %s re-reads as %s" % (ans, brief(arg), brief(back)))
+    return None
+
+
+def hlo_shrink(exe, op, arg, fails):
+    if op == "E":
+        return arg
+    cur = list(arg)
+    i = len(cur) - 1
+    budget = 40
+    while i >= 0 and budget > 0:
+        cand = cur[:i] + cur[i + 1:]
+        budget -= 1
+        if fails(cand):
+            cur = cand
+        i -= 1
+    return cur
+
+
+def oracle_stage(ctx, V, only=None):
+    """returns (cases, violations, disagreements)"""
+    try:
+        ctx.coq_make(["Extract/ExHLOracles.vo"])
+        exe = hlo_build(ctx)
+    except vlib.TieBroken as ex:
+        V.tie_broken("tie", "R-HLO:build", str(ex)); return (0, 0, 1)
+    cases = only if only is not None else hlo_generate(ctx.rng, 600 if ctx.tier == "quick" else 8000)
+    t0 = time.time()
+    res = {}
+    step = 500
+    for i in range(0, len(cases), step):
+        part = hlo_run(exe, cases[i:i + step])
+        for k, v in part.items():
+            res[i + int(k[1:])] = v
+    nv = nd = 0
+    for i, (op, arg) in enumerate(cases):
+        canon = hlo_canon(op, arg)
+        if only is None:
+            V.case(canon, nontrivial=(op != "E" and len(arg) > 1) or (op == "E" and (b"[" in arg or b"," in arg)))
+            V.count("kind:hlo-" + op)
+        if i not in res:
+            if nd < 3:
+                V.tie_broken("tie", "R-HLO:harness-run", "the oracle driver produced no answer (crash of the implementation side?)", case=[canon])
+            nd += 1
+            continue
+        m, a = res[i]
+        ans = hlo_res(op, a)
+        v = hlo_monitor(op, arg, ans)
+        if v:
+            def fails(cand, op=op, clause=v[0]):
+                r = hlo_run(exe, [(op, cand)]).get("h0")
+                w = hlo_monitor(op, cand, hlo_res(op, r[1])) if r else None
+                return bool(w and w[0] == clause)
+            small = hlo_shrink(exe, op, arg, fails)
+            r2 = hlo_run(exe, [(op, small)]).get("h0")
+            v2 = hlo_monitor(op, small, hlo_res(op, r2[1])) if r2 else None
+            if nv < 5:
+                V.violation(v[0], "oracle:" + op, witness=[hlo_canon(op, small)], detail=(v2 or v)[1])
+            nv += 1
+        elif m != a:
+            def differs(cand, op=op):
+                r = hlo_run(exe, [(op, cand)]).get("h0")
+                return bool(r and r[0] != r[1])
+            small = hlo_shrink(exe, op, arg, differs)
+            r2 = hlo_run(exe, [(op, small)]).get("h0") or (m, a)
+            v2 = hlo_monitor(op, small, hlo_res(op, r2[1]))
+            if v2:                      # the shrunk disagreement is an input on which the property itself fails
+                if nv < 5:
+                    V.violation(v2[0], "oracle:" + op, witness=[hlo_canon(op, small)], detail=v2[1])
+                nv += 1
+            elif nd < 5:
+                V.tie_broken("correspondence", "R-HLO", "oracle %s: model (Proofs/HLOracles.v) answers %s, implementation (devstub.c on hostlist.c) %s" % (op, r2[0][:300], r2[1][:300]),
+                             case=[hlo_canon(op, small)])
+            nd += 0 if v2 else 1
+    V.extra["oracle_stage"] = dict(cases=len(cases), seconds=round(time.time() - t0, 1), violations=nv, disagreements=nd)
+    return (len(cases), nv, nd)
+
+
 def run(ctx, V):
     proofs_ok = vlib.proof_gate(ctx, V)
     # the extracted model must exist even if a proof broke (Model/ and Extract/ do not depend on Proofs/)
@@ -1019,7 +1231,10 @@ def run(ctx, V):
               "(suffix widths 0-10, leading zeros, 9|10 99|100 09|10 099|0100, values around 2^25, 2^31, 2^32, 2^64, digit-terminated bracket "
               "prefixes, suffix after bracket, 62-81 character names, MAX_RANGE-1..+1, MAX_RANGES-1..+1, 1021-1030 byte tokens, malformed "
               "expressions) + the conf_exp_aliases iterator pattern + compress/expand round trips + corpus; a case is non-trivial if some "
-              "state holds a range of more than one host or the case ends in a refusal / non-Ok outcome; distinct = distinct op lists")
+              "state holds a range of more than one host or the case ends in a refusal / non-Ok outcome; distinct = distinct op lists; "
+              "R-HLO: the four host-list oracles of the client layer (expand / ranged sorted, by push_host and by push / ranged plain / sorted) on "
+              "generated expressions and name lists (incl. CR, high bytes, list syntax inside names), non-trivial = expression with brackets or "
+              "separators, list of two or more names")
     n = 1500 if quick else 24000
     cases = load_corpus() + generate(ctx.rng, n)
     t0 = time.time()
@@ -1031,6 +1246,8 @@ def run(ctx, V):
     # exhaustive comparison of _width_equiv/_zero_padded (tie only)
     ws = sweep(ctx, V, impl, model)
     dt = time.time() - t0
+    hc, hv, hd = oracle_stage(ctx, V)
+    nv += hv; nd += hd
     V.extra["cases_per_second"] = round(len(cases) / max(dt, 1e-6), 1)
     V.extra["width_equiv_sweep"] = ws
     ctx.log("cases=%d violations=%d disagreements=%d %.1fs" % (len(cases), nv, nd, dt))
@@ -1094,6 +1311,19 @@ def replay(ctx, V, path):
         case = next((x.get("case") for x in rec["no_longer_checks"] if x.get("case")), None)
     if not case:
         print("replay file holds no concrete case (proof-only breakage): %s" % json.dumps(rec.get("no_longer_checks"))[:2000]); return 1
+    if case and str(case[0]).startswith("HLO "):
+        op, arg = hlo_parse_case(case[0])
+        try:
+            ctx.coq_make(["Extract/ExHLOracles.vo"]); exe = hlo_build(ctx)
+        except vlib.TieBroken as ex:
+            print("cannot build: %s" % ex); return 1
+        r = hlo_run(exe, [(op, arg)]).get("h0")
+        print("== case %s %r" % (op, arg))
+        print("== model          %s" % (r[0] if r else "<none>")); print("== implementation %s" % (r[1] if r else "<none>"))
+        v = hlo_monitor(op, arg, hlo_res(op, r[1])) if r else ("harness-run", "no answer")
+        print("== monitor: %s" % ("holds" if not v else "clause %s violated: %s" % v))
+        print("== correspondence: %s" % ("agree" if r and r[0] == r[1] else "differ"))
+        return 1 if (v or not r or r[0] != r[1]) else 0
     ops = [dec_op(l) for l in case]
     a = run_impl(impl, [("r", ops)]).get("r"); b = run_model(model, [("r", ops)]).get("r")
     print("== case"); [print("   " + fmt_op(o)) for o in ops]
